@@ -127,6 +127,19 @@ def run(ctx):
         return
     n = 300 if quick else 4000
     jobs = []
+    # directed first: one output directory under two spellings (components, not strings, identify a path) —
+    # different bytes must conflict in every order, identical bytes merge with both ids
+    for spelling in ('./foo', 'foo//', 'foo/.', './/foo'):
+        for same in (False, True):
+            sk1 = [('SKILL.md', R.SKILL_OK.encode())]
+            sk2 = [('SKILL.md', (R.SKILL_OK if same else R.SKILL_OK2).encode())]
+            mods = [{'id': 'skill:foo', 'type': 'skill', 'enabled': True, 'tags': ['a'], 'targets': [], 'files': sk1, 'fm_ok': True},
+                    {'id': 'skill:' + spelling, 'type': 'skill', 'enabled': True, 'tags': ['a'], 'targets': [], 'files': sk2, 'fm_ok': True}]
+            if rng.random() < 0.5: mods.reverse()
+            case = {'version': 1, 'targets': {'codex': {'scope': 'user', 'options': {'write_user_skills': True}}},
+                    'profiles': {'default': {'include_tags': ['a'], 'include_modules': [], 'exclude_modules': []}},
+                    'modules': mods, 'profile': 'default', 'filter': 'all', 'codex_env': None}
+            jobs.append((case, perms_for(rng, case)))
     for i in range(n):
         case = R.gen_case(rng, docopts)
         jobs.append((case, perms_for(rng, case)))
